@@ -163,12 +163,26 @@ def case_lits(case, cval, sval, hello2_len=0, nst_len=0):
 
 
 # ---- live run -----------------------------------------------------------------------------------
+# Value tables for the opaque ids of the model.  Ids 0..3 are plain names; the higher ids sweep the value space
+# of the field (the model treats the values as opaque, the oracle compares the raw values seen on both ends).
+PROTOS = {4: b'h', 5: b'\x00\xff\x80 \n', 6: b'p' * 255, 7: b'http/1.1', 8: b'H2', 9: b'h2'}
+HOSTS = {3: 'server.example.com.',            # trailing dot (valid per is_valid_hostname)
+         4: 'SERVER.Example.COM',              # upper / mixed case
+         5: 'a',                               # one character
+         6: 'a.',
+         7: 'xn--bcher-kva.example',           # punycode
+         8: '1.2.3.4a',                        # numeric looking
+         9: 'x' * 63 + '.example',             # maximum label
+         10: ('x' * 63 + '.') * 3 + 'y' * 61,  # maximum name (253)
+         11: 'localhost'}
+
+
 def proto(i):
-    return bytearray(b'proto-%d' % i)
+    return bytearray(PROTOS.get(i, b'proto-%d' % i))
 
 
 def host(i):
-    return 'host%d.example.org' % i
+    return HOSTS.get(i, 'host%d.example.org' % i)
 
 
 def validate_pair(case):
@@ -364,13 +378,30 @@ def outcome_code(obs):
 def proto_id(hexs):
     if hexs is None:
         return None
-    return int(bytes.fromhex(hexs).split(b'-')[-1])
+    raw = bytes.fromhex(hexs)
+    for i, v in PROTOS.items():
+        if v == raw:
+            return i
+    try:
+        if raw.startswith(b'proto-'):
+            return int(raw.split(b'-')[-1])
+    except ValueError:
+        pass
+    return 100000 + (sum(raw) % 1000)        # a value that is in no table: never equals a model id
 
 
 def sni_id(name):
     if not name:
         return None
-    return int(name.split('.')[0][4:])
+    for i, v in HOSTS.items():
+        if v == name:
+            return i
+    try:
+        if name.startswith('host') and name.endswith('.example.org'):
+            return int(name.split('.')[0][4:])
+    except ValueError:
+        pass
+    return 100000 + (sum(name.encode('utf-8', 'replace')) % 1000)
 
 
 def obs_tuple(obs):
@@ -827,6 +858,58 @@ def gen_resume(rng, case):
     return {'kind': kind, 'c2': over('c'), 's2': over('s')}
 
 
+WINDOWS = [(0, 0), (1, 1), (2, 2), (3, 3), (4, 4), (0, 1), (1, 2), (1, 3), (3, 4), (1, 4), (0, 4)]
+
+
+def boundary_version_cases():
+    """Directed pairs: every client version window x every server version window (settings made the way a user
+    makes them: minVersion / maxVersion only, `versions` left to validate()).  Disjoint windows must fail with
+    an alert, overlapping ones must agree on a version inside BOTH windows."""
+    D = default_settings_dict
+    out = []
+    for (cl, ch) in WINDOWS:
+        for (sl, sh) in WINDOWS:
+            c = {'settings': dict(D(), minVersion=[3, cl], maxVersion=[3, ch]), 'flavour': 'cert'}
+            s = {'settings': dict(D(), minVersion=[3, sl], maxVersion=[3, sh]), 'cert': 'rsa'}
+            out.append({'id': 'ver-c%d%d-s%d%d' % (cl, ch, sl, sh), 'client': c, 'server': s})
+    return out
+
+
+def value_sweep_cases():
+    """Directed pairs sweeping the value space of the compared fields that the model treats as opaque: server
+    name (trailing dot, case, 1 character, punycode, numeric looking, maximum label / name length), ALPN and NPN
+    protocol names (1 byte, binary, 255 bytes, case variants), record_size_limit at its boundaries -- per
+    protocol version, and on a resumed connection."""
+    D = default_settings_dict
+    out = []
+    vers = {'tls10': {'maxVersion': [3, 1]}, 'tls12': {'maxVersion': [3, 3]}, 'tls13': {}}
+    for vname, vmod in vers.items():
+        for h in sorted(HOSTS):
+            c = {'settings': dict(D(), **vmod), 'flavour': 'cert', 'sni': h}
+            s = {'settings': D(), 'cert': 'rsa'}
+            out.append({'id': 'sni-%s-%d' % (vname, h), 'client': c, 'server': s})
+        for pr in sorted(PROTOS):
+            c = {'settings': dict(D(), **vmod), 'flavour': 'cert', 'alpn': [pr, 0]}
+            s = {'settings': D(), 'cert': 'ecdsa', 'alpn': [1, pr]}
+            out.append({'id': 'alpn-%s-%d' % (vname, pr), 'client': c, 'server': s})
+            if vname != 'tls13':
+                c = {'settings': dict(D(), **vmod), 'flavour': 'cert', 'npn': [pr, 0]}
+                s = {'settings': D(), 'cert': 'rsa', 'npn': [1, pr]}
+                out.append({'id': 'npn-%s-%d' % (vname, pr), 'client': c, 'server': s})
+        for (rc, rs) in ((64, 2 ** 14 + 1), (65, 64), (2 ** 14, 2 ** 14 - 1), (2 ** 14 + 1, 2 ** 14), (None, 64), (16383, None)):
+            c = {'settings': dict(D(), record_size_limit=rc, **vmod), 'flavour': 'cert'}
+            s = {'settings': dict(D(), record_size_limit=rs), 'cert': 'rsa'}
+            out.append({'id': 'rsl-%s-%s-%s' % (vname, rc, rs), 'client': c, 'server': s})
+    # the same server names on a resumed connection (the stored session carries the name)
+    for h in (3, 4, 6, 9):
+        for kind in ('id', 'ticket'):
+            c = {'settings': dict(D(), maxVersion=[3, 3]), 'flavour': 'cert', 'sni': h}
+            s = {'settings': dict(D(), ticket_keys=kind == 'ticket'), 'cert': 'rsa'}
+            out.append({'id': 'sni-resumed-%s-%d' % (kind, h), 'client': c, 'server': s,
+                        'resume': {'kind': kind, 'c2': {}, 's2': {}}})
+    return out
+
+
 def boundary_key_cases():
     """Directed pairs: for every sized key type of /repo/tests (rsa, rsa-pss, dsa), as the server's certificate
     checked by the client and as the client's certificate checked by the server, in TLS 1.2 and TLS 1.3: the
@@ -941,7 +1024,7 @@ def fixed_cases():
                 kw = {'s_cert': scert} if scert else {}
                 case(cmod={'psks': [(0, None)], 'psk_modes': cm}, smod={'psks': [(0, None)], 'psk_modes': sm}, **kw)
     out += resume_cases()
-    return out + boundary_key_cases()
+    return out + boundary_key_cases() + boundary_version_cases() + value_sweep_cases()
 
 
 def resume_cases():
